@@ -82,3 +82,30 @@ def validate_traces(module, trace_files, scratch, parallel=16, timeout=3000, xmx
         return (tf, res, data)
     with cf.ThreadPoolExecutor(max_workers=parallel) as ex:
         return list(ex.map(one, trace_files))
+
+
+def run_apalache(module, invs_hold, invs_refuted, scratch, deps=(), timeout=900, parallel=6):
+    """Apalache (symbolic, --length=0: the invariant on every initial state) on spec/apalache/<module>.tla.
+    Returns list of dicts {inv, expected, outcome, wall, cmd}; outcome in {'NoError', 'Error', 'infra'}."""
+    import concurrent.futures as cf, shutil
+    wd = tempfile.mkdtemp(prefix="apalache.", dir=scratch or "/var/tmp")
+    shutil.copy(os.path.join(SPEC, "apalache", module + ".tla"), wd)
+    for d in deps:
+        shutil.copy(os.path.join(SPEC, d + ".tla"), wd)
+    def one(args):
+        inv, expected = args
+        out = os.path.join(wd, "out." + inv)
+        cmd = ["apalache-mc", "check", "--out-dir=" + out, "--init=Init", "--next=Next", "--length=0", "--inv=" + inv, module + ".tla"]
+        t0 = time.time()
+        try:
+            p = subprocess.run(cmd, cwd=wd, capture_output=True, text=True, timeout=timeout)
+            txt = p.stdout + p.stderr
+        except subprocess.TimeoutExpired:
+            txt = "TIMEOUT"
+        m = re.search(r"The outcome is: (\w+)", txt)
+        return {"inv": inv, "expected": expected, "outcome": m.group(1) if m else "infra", "wall": round(time.time() - t0, 1), "cmd": " ".join(cmd),
+                "tail": "" if m else txt[-800:]}
+    with cf.ThreadPoolExecutor(max_workers=parallel) as ex:
+        res = list(ex.map(one, [(i, "NoError") for i in invs_hold] + [(i, "Error") for i in invs_refuted]))
+    shutil.rmtree(wd, ignore_errors=True)
+    return res
